@@ -26,19 +26,19 @@ ASSUMPTIONS = ['row ids are ints or None; other id types are outside the stateme
                'ReplaceTableData returns no ids in this engine; its rows are identified by the markers (a returned list, if any, '
                'must equal them)',
                'the all-defaults record is observed from outside through Ref cells holding 0, not by reading engine internals']
-REQUIRED = {'requests_accepted_checked': {'quick': 2500, 'thorough': 30000},
-            'replace_requests_checked': {'quick': 300, 'thorough': 4000},
-            'rejections_checked': {'quick': 600, 'thorough': 8000},
-            'rejection.existing_id': {'quick': 100, 'thorough': 1500},
-            'rejection.repeated_id': {'quick': 100, 'thorough': 1500},
-            'rejection.over_limit': {'quick': 100, 'thorough': 1500},
-            'rejection.zero_id': {'quick': 100, 'thorough': 1500},
-            'failures_checked': {'quick': 600, 'thorough': 8000},
-            'empty_record_observations': {'quick': 3000, 'thorough': 40000},
-            'empty_record_fresh_probes': {'quick': 60, 'thorough': 500},
-            'placeholder_followups_checked': {'quick': 300, 'thorough': 4000},
-            'requests_on_table_with_holes': {'quick': 500, 'thorough': 6000},
-            'boundary_cases': {'quick': 60, 'thorough': 300}}
+REQUIRED = {'requests_accepted_checked': {'quick': 2000, 'thorough': 8000},
+            'replace_requests_checked': {'quick': 200, 'thorough': 800},
+            'rejections_checked': {'quick': 600, 'thorough': 2400},
+            'rejection.existing_id': {'quick': 100, 'thorough': 400},
+            'rejection.repeated_id': {'quick': 100, 'thorough': 400},
+            'rejection.over_limit': {'quick': 100, 'thorough': 400},
+            'rejection.zero_id': {'quick': 100, 'thorough': 400},
+            'failures_checked': {'quick': 600, 'thorough': 2400},
+            'empty_record_observations': {'quick': 2800, 'thorough': 11200},
+            'empty_record_fresh_probes': {'quick': 60, 'thorough': 240},
+            'placeholder_followups_checked': {'quick': 300, 'thorough': 1200},
+            'requests_on_table_with_holes': {'quick': 500, 'thorough': 2000},
+            'boundary_cases': {'quick': 60, 'thorough': 240}}
 SHARD_TIMEOUT = {'quick': 600, 'thorough': 2400}
 
 TDATA = {'T': [('M', 'Int'), ('S', 'Text'), ('V', 'Int'), ('RT', 'Ref:T')],
@@ -49,7 +49,7 @@ LIMIT = 1000000
 
 
 def plan(tier, seed):
-  n, docs, cases = (16, 2, 130) if tier == 'quick' else (48, 4, 330)
+  n, docs, cases = (16, 2, 130) if tier == 'quick' else (32, 3, 260)
   return [{'hseed': seed * 100003 + 2700 + i, 'docs': docs, 'cases': cases} for i in range(n)]
 
 
